@@ -3,12 +3,14 @@ from fractions import Fraction
 import numpy as np
 import gen
 import spec
-from props.common import load_impl, exc_name, make_prov
+from props.common import load_impl, exc_name, make_prov, rand_raw_data, raw_to_exprs, raw_model_prov, make_raw_prov, raw_padding_kinds
 from props import tables
 
 RULE = ("method='bruteforce' with recording table utilities: an independent value (dyadic or sevenths) or a raised ValueError/RuntimeWarning/UserWarning "
         "(and, in a separate stream, an uncaught exception class) for EVERY row subset reachable by some coalition, over random DNF provenances (value-0 "
-        "literals included), 1-6 units quick / 1-9 thorough; compared: score vector vs the Lean model Ds.Brute.scores and vs the textbook Shapley sum in "
+        "literals included; built from expressions, by editing the default object in place, or - 1 case in 5 - handed over as RAW (rows, disjuncts, conjuncts, 2) "
+        "data whose padding slots (-1,-1) stand in front of / between / behind the literals of a disjunct, with whole disjuncts and rows of padding: the formula of "
+        "such a row is the disjunction, over its disjuncts holding a literal, of the conjunction of the literals), 1-6 units quick / 1-9 thorough; compared: score vector vs the Lean model Ds.Brute.scores and vs the textbook Shapley sum in "
         "Fractions, and the set of row subsets the utility was called with vs the row sets whose formulas are true under the coalitions. Non-trivial = >= 2 units, >= 3 distinct "
         "coalition values and at least one failing coalition or value-0 literal; distinct = distinct (provenance, table).")
 
@@ -49,10 +51,23 @@ def run(ctx):
                     prov[r_] = gen.build_expr(P_, _units, e_)
             table = tables.rand_table(rng, exprs, n_units, p_fail=0.2, dyadic=True, allow_other=False)
             other_stream = False
+        raw_data = None
+        if it % 5 == 2 and it % 7 != 3:
+            # the provenance is handed over as a raw 4-D array (public constructor) with padding slots anywhere; `exprs` = its formulas by definition
+            raw_data = rand_raw_data(rng, n_units, 2, rows=rng.randint(1, 6), nd=rng.randint(1, 3), nc=rng.randint(2, 3))
+            exprs = raw_to_exprs(raw_data)
+            prov, _units = make_raw_prov(I, raw_data, n_units, form=rng.choice(["int64", "int64", "int32", "list"]))
+            other_stream = False
+            table = tables.rand_table(rng, exprs, n_units, p_fail=0.2, dyadic=(rng.random() < 0.6), allow_other=False)
+            ctx.dist["provenance=raw 4-D data"] += 1
+            for k_ in raw_padding_kinds(raw_data):
+                ctx.dist["raw_padding=" + k_] += 1
         n_rows = len(exprs)
         X = np.arange(n_rows, dtype=float).reshape(-1, 1)
         util = tables.make_table_utility(I, table, null, mean=0)
         case = dict(nUnits=n_units, exprs=exprs, table=tables.table_json(table), null=str(null))
+        if raw_data is not None:
+            case["rawData"] = raw_data
         try:
             imp = I["imp"].ShapleyImportance(method="bruteforce", utility=util)
             res = list(np.asarray((tables.fit_ids(util, imp, X, prov) if it % 2 else imp.fit(X, np.zeros(n_rows, dtype=int), provenance=prov)).score(np.zeros((1, 1)), np.zeros(1, dtype=int)), dtype=float))
@@ -65,7 +80,10 @@ def run(ctx):
         nontriv = n_units >= 2 and len(vals) >= 3 and (any(isinstance(v, str) for v in table.values()) or any(c == 0 for e in exprs for cj in spec.expr_to_dnf(e) for (_, c) in cj))
         ctx.case(case, nontrivial=nontriv, sample=(case if n_units <= 3 else None), units=n_units, other=has_other)
         ctx.maxi(units=n_units, rows=n_rows, coalitions=2 ** n_units)
-        ans = ctx.model({"op": "brute", "prov": {"nUnits": n_units, "exprs": exprs}, "table": tables.table_json(table), "null": str(null)})
+        ans = ctx.model({"op": "brute", "prov": (raw_model_prov(raw_data, n_units) if raw_data is not None else {"nUnits": n_units, "exprs": exprs}), "table": tables.table_json(table), "null": str(null)})
+        if raw_data is None or all(spec.expr_to_dnf(e) for e in exprs):
+            # the control skeleton translated from this tree's source, run on the same table
+            tables.check_translated_brute(ctx, case, exprs, n_units, table, null, res, 16)
         if has_other:
             # the first 'Other' coalition in enumeration order must propagate
             if res != "Other":
